@@ -3,10 +3,18 @@
 package main
 
 import (
+	"context"
+	"database/sql"
+	"path/filepath"
 	"strings"
 
 	"raven/internal/db"
 	"raven/internal/delivery/parser"
+)
+
+var (
+	dbLockDB   *sql.DB
+	dbLockConn *sql.Conn
 )
 
 // C15: direct call of the hashing decoder, and "objects vanish" on the fake
@@ -34,6 +42,41 @@ func init() {
 		}
 		return map[string]interface{}{"err": false, "parts": out}
 	}
+	// db_lock / db_unlock: hold (release) the write lock of the shared database
+	// from a connection of the driver's own, so that every write raven attempts
+	// there fails with "database is locked" after its busy timeout while reads
+	// still succeed (the S3-ok / DB-error => inline branch of the store loop)
+	register("db_lock", func(w *World, op Op) Obs {
+		if dbLockConn != nil {
+			return Obs{"error": "already locked"}
+		}
+		d, err := sql.Open("sqlite3", "file:"+filepath.Join(w.dataDir, "shared.db")+"?_busy_timeout=5000")
+		if err != nil {
+			return Obs{"error": err.Error()}
+		}
+		c, err := d.Conn(context.Background())
+		if err != nil {
+			return Obs{"error": err.Error()}
+		}
+		if _, err := c.ExecContext(context.Background(), "BEGIN IMMEDIATE"); err != nil {
+			return Obs{"error": err.Error()}
+		}
+		dbLockDB, dbLockConn = d, c
+		return Obs{"ok": true}
+	})
+	register("db_unlock", func(w *World, op Op) Obs {
+		if dbLockConn == nil {
+			return Obs{"error": "not locked"}
+		}
+		_, err := dbLockConn.ExecContext(context.Background(), "ROLLBACK")
+		_ = dbLockConn.Close()
+		_ = dbLockDB.Close()
+		dbLockDB, dbLockConn = nil, nil
+		if err != nil {
+			return Obs{"error": err.Error()}
+		}
+		return Obs{"ok": true}
+	})
 	// s3_lose: {"keys":[hex object ids]} — remove blobs/<id> from the bucket
 	// (no "keys" field: remove everything)
 	register("s3_lose", func(w *World, op Op) Obs {
